@@ -48,7 +48,11 @@ def finishes_clean(l0: int, l1: int, l2: int, d0: int, d1: int, d2: int, lag0: i
     if consume == 0 and k != 1:
         return ctx.done(True)
     mode = [None, ('close', k), ('raise', k)][consume]
-    out, world, eq, spans, journal = run_world(ids, ['equal'] * n, life, delays, [lag0, lag1], rate, False, mode)
+    if ctx.BOUNDS.get('DELAYS') is not None:
+        with ctx.untraced():
+            out, world, eq, spans, journal = run_world(ids, ['equal'] * n, life, delays, [lag0, lag1], rate, False, mode)
+    else:
+        out, world, eq, spans, journal = run_world(ids, ['equal'] * n, life, delays, [lag0, lag1], rate, False, mode)
     expected_n = n if mode is None else min(n, k)
     ok = len(out) == expected_n
     # every comparison is delivered within timeout + one poll + the parent's own lags (+ the answer's processing)
